@@ -1,5 +1,7 @@
 import ComposeVerif.Props.C12
 import ComposeVerif.Props.C12Origin
+import ComposeVerif.Model.Pipeline
+import ComposeVerif.Lemmas.PathsRows
 import ComposeVerif.Lemmas.AuditCmd
 /-!
 # C12 — the whole pipeline against the specification (round 5)
@@ -58,4 +60,215 @@ example :
     expected? (kindOf 2) (inclDir id ['/', 'w'] [['a', '/', 'i'], ['.', '.', '/', 'b', '/', 'j']]) (some ['/', 'h']) (fun _ => false)
         ['C', ':', '\\', 'd'] = some ['C', ':', '\\', 'd'] := by decide
 
+/-! ## round 6 — resolving what a load returned changes nothing (value level) -/
+
+/-- **a resolved value is a fixpoint of every later resolution**, whatever directory that later resolution uses: what one
+resolution against an absolute base returns is left as written by a resolution against any base, with any `$HOME`
+(attribute kinds of `predict`: 0 env/label/watch paths, 1 build contexts, ≥ 2 mount sources and secret/config files) -/
+theorem resolved_is_fixpoint (k : Nat) (cfg cfg' : Cfg) (s r : Str) (hwd : isAbs cfg.wd = true)
+    (h : resolveKind k cfg s = .ok r) : resolveKind k cfg' r = .ok r := by
+  match k with
+  | 0 =>
+    simp only [resolveKind, Out.ok.injEq] at h ⊢
+    subst h
+    exact absPathStr_fix cfg' _ (absPathStr_abs_or_nil cfg s hwd)
+  | 1 =>
+    simp only [resolveKind, Out.ok.injEq] at h ⊢
+    subst h
+    cases hu : urlLike s with
+    | true => rw [absContextStr_url cfg s hu]; exact absContextStr_url cfg' s hu
+    | false =>
+      rw [absContextStr_local cfg s hu]
+      cases h2 : urlLike (absPathStr cfg s) with
+      | true => exact absContextStr_url cfg' _ h2
+      | false =>
+        rw [absContextStr_local cfg' _ h2]
+        exact absPathStr_fix cfg' _ (absPathStr_abs_or_nil cfg s hwd)
+  | _ + 2 =>
+    simp only [resolveKind] at h ⊢
+    exact maybeUnixStr_fix cfg' r (maybeUnixStr_result cfg s r hwd h)
+
+theorem isAbs_inclDir (ps : List Str) : ∀ (L : Str), isAbs L = true → isAbs (inclDir id L ps) = true := by
+  induction ps with
+  | nil => intro L h; exact h
+  | cons p ps ih => intro L h; exact ih _ (isAbs_dir _ (isAbs_absIn L p h))
+
+/-- **resolving an already loaded project changes nothing**: the value of a path attribute of the main files / of an
+included file at any depth in the loaded project (`predict`) is left as written by a further resolution against the
+project directory — or against any other directory -/
+theorem loaded_value_is_fixpoint (k : Nat) (cfg cfg' : Cfg) (isDir : Str → Bool) (ps : List Str) (s r : Str)
+    (hW : isAbs cfg.wd = true) (hok : InclOK isDir (fun _ => True) cfg.wd ps)
+    (hhome : ∀ h, cfg.home = some h → h ≠ [])
+    (h : predict k cfg isDir (inclSteps ps) true s = .ok r) : resolveKind k cfg' r = .ok r := by
+  rw [include_chain_origin k cfg isDir ps s hW hok hhome] at h
+  exact resolved_is_fixpoint k { cfg with wd := inclDir id cfg.wd ps } cfg' s r (isAbs_inclDir ps cfg.wd hW) h
+
+/-- … and loading is total on path attributes: for every chain of includes the loader's staged resolution yields a value
+(no stage fails or panics on a string) -/
+theorem loaded_value_exists (k : Nat) (cfg : Cfg) (isDir : Str → Bool) (ps : List Str) (s : Str)
+    (hW : isAbs cfg.wd = true) (hok : InclOK isDir (fun _ => True) cfg.wd ps)
+    (hhome : ∀ h, cfg.home = some h → h ≠ []) :
+    ∃ r, predict k cfg isDir (inclSteps ps) true s = .ok r := by
+  rw [include_chain_origin k cfg isDir ps s hW hok hhome]
+  exact resolveKind_total k _ s
+
+/-! ## round 6 — every path attribute of a resolved tree is absolute or exempt (tree level) -/
+
+/-- **every resolver row of the output is an output of its resolver**: the walker leaves no node that matches a row of
+the table unresolved, however deep it sits and whatever surrounds it (the complement of `frame`) -/
+theorem resolve_rows_are_resolved (cfg : Cfg) (v v' : Val) (h : resolve cfg v = .ok v') :
+    RowsAre CV.Gen.resolvers (ImageOf cfg) TPath.root v' :=
+  walk_rows _ cfg _ v v' h
+
+/-- **after resolution against an absolute base every string at a row of `absPath` (env files, label files),
+`absContextPath` (build contexts, additional contexts) or `maybeUnixPath` (secret / config files, bind devices) is
+absolute — or empty, or URL-like (contexts), or Windows-absolute (secret / config files)**: the first sentence of the
+property, for every tree -/
+theorem resolve_rows_abs_or_exempt (cfg : Cfg) (hwd : isAbs cfg.wd = true) (v v' : Val) (h : resolve cfg v = .ok v') :
+    RowsAre CV.Gen.resolvers PathOK TPath.root v' :=
+  rowsAre_mono _ _ _ (fun hn out hi => image_pathOK cfg hwd hn out hi) _ _ (resolve_rows_are_resolved cfg v v' h)
+
+/-- non-vacuity: the rows in question exist and are string rows of these three resolvers -/
+example :
+    TPath.firstMatch CV.Gen.resolvers ["services", "a", "build", "context"] = some "absContextPath" ∧
+    TPath.firstMatch CV.Gen.resolvers ["services", "a", "build", "additional_contexts", "k"] = some "absContextPath" ∧
+    TPath.firstMatch CV.Gen.resolvers ["secrets", "s", "file"] = some "maybeUnixPath" ∧
+    TPath.firstMatch CV.Gen.resolvers ["configs", "c", "file"] = some "maybeUnixPath" ∧
+    TPath.firstMatch CV.Gen.resolvers ["services", "a", "label_file", "[]"] = some "absPath" := by decide
+
 end CV.Paths
+
+/-! # Round 6 — the clause of C12 about the composed pipeline (`Model/Pipeline.lean`: `Pipeline.load`, `Pipeline.loadY`)
+
+The composed model runs the stage models in the loader's order; C12 owns `pathsStage`
+(`if opts.ResolvePaths { paths.ResolveRelativePaths(dict, config.WorkingDir, remotes) }`), which sits between
+`validateStage` and `ResolveEnvironment`.  The theorems below are about the whole function: whenever `Pipeline.load`
+(documents) or `Pipeline.loadY` (YAML files) succeeds, the model that leaves the path stage — the one handed to
+`ResolveEnvironment` and `Normalize` — (a) is the resolution of the validated model, (b) differs from it only below nodes
+of the resolver table (every non-path attribute is as the earlier stages left it), (c) is a fixpoint of the resolution
+(resolving the already resolved model changes nothing), and with resolution off (d) is the validated model itself. -/
+namespace CV.Pipeline
+open CV CV.Paths
+
+theorem Out.bind_ok {α β : Type} (x : Out α) (f : α → Out β) (r : β) (h : x.bind f = .ok r) :
+    ∃ a, x = .ok a ∧ f a = .ok r := by
+  cases x with
+  | ok a => exact ⟨a, rfl, h⟩
+  | err e => simp [Out.bind] at h
+  | panic s => simp [Out.bind] at h
+
+/-- the path stage of the composed pipeline is `Paths.resolve` with the project's configuration, or nothing -/
+theorem pathsStage_is_resolve (c : Cfg) (d r : Val) (h : pathsStage c d = .ok r) :
+    (c.opts.resolvePaths = true ∧ Paths.resolve c.paths d = .ok r) ∨ (c.opts.resolvePaths = false ∧ r = d) := by
+  unfold pathsStage at h
+  cases hp : c.opts.resolvePaths with
+  | true =>
+    simp only [hp, if_true] at h
+    cases hr : Paths.resolve c.paths d with
+    | ok a => simp only [hr, ofPaths, Out.ok.injEq] at h; exact .inl ⟨rfl, by rw [h]⟩
+    | err e => simp [hr, ofPaths] at h
+    | panic s => simp [hr, ofPaths] at h
+  | false =>
+    simp only [hp, Bool.false_eq_true, if_false, Out.ok.injEq] at h
+    exact .inr ⟨rfl, h.symm⟩
+
+/-- the path stage never panics, whatever the earlier stages produced (composition of `resolve_never_panics`) -/
+theorem pathsStage_never_panics (c : Cfg) (d : Val) (s : String) : pathsStage c d ≠ .panic s := by
+  unfold pathsStage
+  split
+  · cases hr : Paths.resolve c.paths d with
+    | ok a => simp [ofPaths]
+    | err e => simp [ofPaths]
+    | panic x => exact absurd hr (Paths.resolve_never_panics c.paths d x)
+  · simp
+
+/-- what `finishModel` (defaults → validation → paths → environment) returns, in terms of the path stage -/
+theorem finishModel_through_paths (c : Cfg) (dict : Val) (r : Val.KVs) (h : finishModel c dict = .ok r) :
+    ∃ d0 d m, defaultsStage c dict = .ok d0 ∧ validateStage c d0 = .ok d ∧ pathsStage c d = .ok (.map m) ∧
+      r = resolveEnvironment c.env m := by
+  unfold finishModel at h
+  obtain ⟨d0, h0, h⟩ := Out.bind_ok _ _ _ h
+  obtain ⟨d, h1, h⟩ := Out.bind_ok _ _ _ h
+  obtain ⟨p, h2, h⟩ := Out.bind_ok _ _ _ h
+  unfold envStage at h
+  cases p with
+  | map m => simp only [Out.ok.injEq] at h; exact ⟨d0, d, m, h0, h1, h2, h.symm⟩
+  | null => simp at h
+  | bool b => simp at h
+  | int n => simp at h
+  | float f => simp at h
+  | str s => simp at h
+  | seq xs => simp at h
+
+/-- the conclusion of the C12 clause about a successful load that produced `r` -/
+def PathsClause (c : Cfg) (r : Val.KVs) : Prop :=
+  ∃ (d : Val) (m : Val.KVs),
+    -- `d` is the model after merge, defaults and validation; `m` leaves the path stage and `r` is the rest of the pipeline on it
+    finishLoad c (resolveEnvironment c.env m) = .ok r ∧
+    (c.opts.resolvePaths = true →
+      Paths.resolve c.paths d = .ok (.map m) ∧
+      Frame CV.Gen.resolvers TPath.root d (.map m) ∧
+      (IdemOK c.paths → Paths.resolve c.paths (.map m) = .ok (.map m))) ∧
+    (c.opts.resolvePaths = false → d = .map m)
+
+theorem clause_of_finishModel (c : Cfg) (dict : Val) (k r : Val.KVs) (h : finishModel c dict = .ok k)
+    (hf : finishLoad c k = .ok r) : PathsClause c r := by
+  obtain ⟨d0, d, m, _, _, hp, rfl⟩ := finishModel_through_paths c dict k h
+  refine ⟨d, m, hf, ?_, ?_⟩
+  · intro hon
+    rcases pathsStage_is_resolve c d _ hp with ⟨_, hr⟩ | ⟨hoff, _⟩
+    · exact ⟨hr, Paths.frame c.paths d _ hr, fun hok => Paths.resolve_idem c.paths hok d _ hr⟩
+    · rw [hon] at hoff; cases hoff
+  · intro hoff
+    rcases pathsStage_is_resolve c d _ hp with ⟨hon, _⟩ | ⟨_, he⟩
+    · rw [hoff] at hon; cases hon
+    · exact he.symm
+
+/-- **C12 about `Pipeline.load`**: every successful load of documents went through the path stage as the property says -/
+theorem load_paths_clause (c : Cfg) (docs : List Val.KVs) (r : Val.KVs) (h : load c docs = .ok r) : PathsClause c r := by
+  unfold load at h
+  split at h
+  · cases h
+  · obtain ⟨k, hk, hf⟩ := Out.bind_ok _ _ _ h
+    unfold loadYamlModel at hk
+    obtain ⟨dict, _, hm⟩ := Out.bind_ok _ _ _ hk
+    exact clause_of_finishModel c dict k r hm hf
+
+/-- **C12 about `Pipeline.loadY`** (files given as YAML text, `!reset` / `!override` included) -/
+theorem loadY_paths_clause (c : Cfg) (files : List (List Reset.YNode)) (r : Val.KVs) (h : loadY c files = .ok r) :
+    PathsClause c r := by
+  unfold loadY at h
+  split at h
+  · cases h
+  · obtain ⟨k, hk, hf⟩ := Out.bind_ok _ _ _ h
+    unfold loadYamlModelY at hk
+    obtain ⟨dict, _, hm⟩ := Out.bind_ok _ _ _ hk
+    exact clause_of_finishModel c dict k r hm hf
+
+/-- **C12's first sentence about `Pipeline.load`**: a successful load with path resolution and an absolute project
+directory hands on a model in which every string at a row of `absPath` / `absContextPath` / `maybeUnixPath` is absolute
+or exempt (`PathOK`), and every row node is an output of its resolver -/
+theorem load_rows_abs_or_exempt (c : Cfg) (docs : List Val.KVs) (r : Val.KVs) (h : load c docs = .ok r)
+    (hon : c.opts.resolvePaths = true) (hwd : isAbs c.paths.wd = true) :
+    ∃ m, finishLoad c (resolveEnvironment c.env m) = .ok r ∧
+      RowsAre CV.Gen.resolvers (ImageOf c.paths) TPath.root (.map m) ∧
+      RowsAre CV.Gen.resolvers PathOK TPath.root (.map m) := by
+  obtain ⟨d, m, hf, hon', _⟩ := load_paths_clause c docs r h
+  exact ⟨m, hf, Paths.resolve_rows_are_resolved c.paths d _ (hon' hon).1,
+    Paths.resolve_rows_abs_or_exempt c.paths hwd d _ (hon' hon).1⟩
+
+/-- with `SkipNormalization` the loaded model itself is (environment resolution of) the fixpoint: read off `PathsClause` -/
+theorem load_result_is_resolved (c : Cfg) (docs : List Val.KVs) (r : Val.KVs) (h : load c docs = .ok r)
+    (hn : c.opts.skipNormalization = true) (hon : c.opts.resolvePaths = true) (hok : IdemOK c.paths) :
+    ∃ m, r = resolveEnvironment c.env m ∧ Paths.resolve c.paths (.map m) = .ok (.map m) := by
+  obtain ⟨d, m, hf, hon', _⟩ := load_paths_clause c docs r h
+  refine ⟨m, ?_, (hon' hon).2.2 hok⟩
+  unfold finishLoad at hf
+  split at hf
+  · cases hf
+  · split at hf
+    · cases hf
+    · simp only [hn, if_true, Out.ok.injEq] at hf
+      exact hf.symm
+
+end CV.Pipeline
